@@ -125,6 +125,7 @@ static const double reb_saba_cc[4] = {
     
 
 static void reb_saba_corrector_step(struct reb_simulation* r, double cc){
+    REB_VERIF(r, "saba_corr", 2, cc, (double)r->ri_saba.type);
     struct reb_integrator_whfast* const ri_whfast = &(r->ri_whfast);
     struct reb_particle* const p_j = ri_whfast->p_jh;
 	struct reb_particle* const particles = r->particles;
@@ -261,6 +262,7 @@ void reb_integrator_saba_synchronize(struct reb_simulation* const r){
     struct reb_integrator_whfast* const ri_whfast = &(r->ri_whfast);
     struct reb_integrator_saba* const ri_saba = &(r->ri_saba);
     int type = ri_saba->type;
+    REB_VERIF(r, "sync_b", 2, (double)ri_saba->is_synchronized, (double)ri_saba->keep_unsynchronized);
     if (ri_saba->is_synchronized == 0){
         const int N = r->N;
         struct reb_particle* sync_pj  = NULL;
@@ -283,6 +285,7 @@ void reb_integrator_saba_synchronize(struct reb_simulation* const r){
             ri_saba->is_synchronized = 1;
         }
     }
+    REB_VERIF(r, "sync_e", 1, (double)ri_saba->is_synchronized);
 }
 
 void reb_integrator_saba_part2(struct reb_simulation* const r){
